@@ -29,6 +29,7 @@ type c20Prog struct {
 	NVars   int  `json:"nvars"`
 	Chain   bool `json:"chain"` // task i depends on task i-1
 	FileDep bool `json:"filedep"`
+	NoMatch bool `json:"nomatch,omitempty"` // the first task also has a glob dependency that matches nothing
 }
 
 var c20VarNames = []string{"VA", "ZED"}
@@ -56,9 +57,10 @@ func (p c20Prog) cmd(t string, k int) (src, expanded, stdout, stderr string) {
 		v, vv = "_{{.VA}}", "_"+c20VarVals[0]
 	}
 	// the texts carry printf verbs: a report that is passed through a format function would mangle them
-	src = fmt.Sprintf("echo OUT_%s_%d%s_100%%d%%s && echo ERR_%s_%d_%%v >&2 && echo %s:%d >> \"$VLOG\"", t, k, v, t, k, t, k)
+	// ... and text that looks like a JSON escape: a report that is post-processed as text would mangle it
+	src = fmt.Sprintf("echo OUT_%s_%d%s_100%%d%%s'\\u0026<&>' && echo ERR_%s_%d_%%v >&2 && echo %s:%d >> \"$VLOG\"", t, k, v, t, k, t, k)
 	expanded = strings.ReplaceAll(src, "{{.VA}}", c20VarVals[0])
-	return src, expanded, fmt.Sprintf("OUT_%s_%d%s_100%%d%%s\n", t, k, vv), fmt.Sprintf("ERR_%s_%d_%%v\n", t, k)
+	return src, expanded, fmt.Sprintf("OUT_%s_%d%s_100%%d%%s\\u0026<&>\n", t, k, vv), fmt.Sprintf("ERR_%s_%d_%%v\n", t, k)
 }
 
 func (p c20Prog) text() string {
@@ -78,6 +80,9 @@ func (p c20Prog) text() string {
 		}
 		if p.FileDep {
 			deps = append(deps, `"`+n+`.txt"`)
+		}
+		if p.NoMatch && i == 0 {
+			deps = append(deps, `"docs/**/*.nomatch"`)
 		}
 		fmt.Fprintf(&sb, "task %s(%s) {\n", n, strings.Join(deps, ", "))
 		for k := 1; k <= p.NCmds; k++ {
@@ -105,7 +110,10 @@ func c20Progs(tier string) []c20Prog {
 								if !fd && tier != "thorough" && !(nt == 2 && nc == 1) {
 									continue
 								}
-								out = append(out, c20Prog{nt, docs, def, nc, nv, chain, fd})
+								out = append(out, c20Prog{nt, docs, def, nc, nv, chain, fd, false})
+								if nc == 1 && nv == 0 && fd {
+									out = append(out, c20Prog{nt, docs, def, nc, nv, chain, fd, true})
+								}
 							}
 						}
 					}
